@@ -23,12 +23,22 @@ def lookahead_section():
             reads.append(ast.unparse(n))
         if isinstance(n, ast.Call) and isinstance(n.func, ast.Attribute) and isinstance(n.func.value, ast.Name) \
                 and n.func.value.id == "s":
-            reads.append(ast.unparse(n)[:60])
+            reads.append(ast.unparse(n))
         if isinstance(n, ast.Call) and isinstance(n.func, ast.Name) and any(isinstance(a, ast.Name) and a.id == "s" for a in n.args):
             reads.append(ast.unparse(n)[:60])
-    allowed_prefix = ("enumerate(s)", "_prev_char(s, i)", "_next_char(s, i)", "s.startswith(tuple((p[0] for p in g.comments)), i + 1)",
-                      "LexerError(")
-    bad = [r for r in reads if not r.startswith(allowed_prefix)]
+    allowed_prefix = ("enumerate(s)", "_prev_char(s, i)", "_next_char(s, i)", "LexerError(")
+
+    def ok_read(r):
+        if r.startswith(allowed_prefix):
+            return True
+        # s.startswith(<prefixes>, i + 1): reads from position i+1 only (whatever expression builds the prefixes)
+        try:
+            c = ast.parse(r, mode="eval").body
+        except SyntaxError:
+            return False
+        return (isinstance(c, ast.Call) and isinstance(c.func, ast.Attribute) and c.func.attr == "startswith" and len(c.args) == 2
+                and ast.unparse(c.args[1]) == "i + 1")
+    bad = [r for r in reads if not ok_read(r)]
     s.obl("pvl.lexer.lexer:text-read-only-at-i-1,i,i+1-and-one-startswith(i+1)", DISCHARGED if reads and not bad else FAILED,
           "frame", detail=str(bad or reads), function="pvl.lexer.lexer")
     for nm, want in (("_prev_char", "s[idx - 1]"), ("_next_char", "s[idx + 1]")):
@@ -40,9 +50,67 @@ def lookahead_section():
     return s
 
 
+def strict_tail_section(ctx):
+    """bounded: data glued to END (no separator) under the strict parsers, whose grammars do not allow the data's characters"""
+    import os
+    import tempfile
+    import pvl
+    from pvl.parser import PVLParser, ODLParser
+    from pvl.grammar import PVLGrammar, ODLGrammar, PDSGrammar, ISISGrammar
+    from pvl.decoder import PVLDecoder, ODLDecoder, PDSLabelDecoder
+    s = Section("strict-parsers-data-glued-to-END", "bounded", bounded=True,
+                rule="loads/load with an explicit strict parser: text + 'END' + tail (no separator) gives the module of the text alone",
+                bounds={"labels": 3, "tails": 9, "parsers": 4, "routes": 2})
+    labels = ["a = 1\n", "GROUP = g\n  b = (1, 2)\nEND_GROUP\nc = 'x'\n", ""]
+    tails = ["\x00", "\x00\x01\x02data", "\x1a", "\x7f\x80", "\u00e9\u00ff", "\u0100\u2028", "\x00" * 5000, "\x0e=\x0f", "\x01END"]
+    cfgs = {"PVL": lambda: PVLParser(grammar=PVLGrammar(), decoder=PVLDecoder(grammar=PVLGrammar())),
+            "ODL": lambda: ODLParser(grammar=ODLGrammar(), decoder=ODLDecoder(grammar=ODLGrammar())),
+            "PDS3": lambda: ODLParser(grammar=PDSGrammar(), decoder=PDSLabelDecoder(grammar=PDSGrammar())),
+            "ISIS": lambda: PVLParser(grammar=ISISGrammar(), decoder=PVLDecoder(grammar=ISISGrammar()))}
+    for cname, mk in cfgs.items():
+        for lab in labels:
+            try:
+                want = pvl.loads(lab + "END\n", parser=mk())
+            except Exception as e:   # noqa
+                s.notes.append(f"{cname}: base label does not load: {e!r}"[:120])
+                continue
+            g = mk().grammar
+            for tail in tails:
+                if g.char_allowed(tail[0]):
+                    continue          # an allowed character glued to END makes another word: not an END statement
+                text = lab + "END" + tail
+                for route in ("loads", "load-path"):
+                    try:
+                        if route == "loads":
+                            got = pvl.loads(text, parser=mk())
+                        else:
+                            with tempfile.NamedTemporaryFile("w", suffix=".lbl", delete=False, encoding="utf-8", newline="") as fh:
+                                fh.write(text)
+                            try:
+                                got = pvl.load(fh.name, parser=mk())
+                            finally:
+                                os.unlink(fh.name)
+                        bad = None if got == want else f"returned {got!r} instead of {want!r}"
+                    except Exception as e:   # noqa
+                        bad = f"raised {type(e).__name__}: {str(e)[:100]}"
+                    s.case(distinct_key=(cname, lab, tail[:8], route), sample={"parser": cname, "text": text[:40], "route": route})
+                    if bad:
+                        s.violation(f"C09:{cname}:glued-tail:{route}:{tail[:4]!r}",
+                                    f"{cname} {route}({text[:60]!r}...): {bad}; the label alone loads",
+                                    {"parser": cname, "text": text[:200], "route": route, "kind": "strict-glued-tail"})
+    return s
+
+
 def run(ctx):
-    return [parser_section(ctx), protocol_section(), entry_section(), lookahead_section()] + drv.sections(ctx)
+    return [parser_section(ctx), protocol_section(), entry_section(), lookahead_section(), strict_tail_section(ctx)] + drv.sections(ctx)
 
 
 def replay(data):
+    if data.get("kind") == "strict-glued-tail":
+        from ..harness import Ctx
+        sec = strict_tail_section(Ctx("C09", "quick", 0))
+        for v in sec.violations:
+            if v.data.get("parser") == data.get("parser"):
+                return v.what
+        return None
     return drv.replay(data)
